@@ -1,6 +1,8 @@
 package main
 
 import (
+	"sort"
+	"strings"
 	"fmt"
 	"go/token"
 	"go/types"
@@ -315,7 +317,17 @@ func runC11(c *Ctx) {
 				if ok {
 					one, isOne = constInt(b.Y)
 				}
-				good = ok && b.Op == token.ADD && isOne && one == 1 && heldAt(st, a.Root, spec.lock) == "Lock"
+				// counter + 1: the counter itself, not something else that happens to grow (the size of the table
+				// shrinks again when a handle is closed, and the next handle repeats one that is still open)
+				isSelf := false
+				if ok {
+					if u, isU := stripConv(b.X).(*ssa.UnOp); isU && u.Op == token.MUL {
+						if t2, n2, _, okF := fieldOf(u.X); okF && n2 == "handleCount" && typeName(t2) == spec.st {
+							isSelf = true
+						}
+					}
+				}
+				good = ok && isSelf && b.Op == token.ADD && isOne && one == 1 && heldAt(st, a.Root, spec.lock) == "Lock"
 				if good {
 					advancers[a.Fn] = st
 				}
@@ -724,6 +736,9 @@ func runC11(c *Ctx) {
 	checkHandleValidityFromTable(c, "R12")
 	checkStateSlotsServedOnce(c, "R13")
 	checkHandleObjectsClosedOnlyByClose(c, "R15")
+	checkWorkersAccountedFor(c, "R16")
+	checkCloseErrorsKept(c, "R17")
+	checkHandlerObjectInOneSlot(c, "R18")
 	// R14 (shared with C07.R2): what ends the session is what the sweep reports to the objects still open — a receive
 	// loop that returns something else than the decoding error (nil) leaves them without their transfer-error notice
 	c.withRule("R14", func() { checkBadPacketEndsSession(c) })
@@ -1520,4 +1535,113 @@ func sliceLiteralElems(v ssa.Value, depth int) []ssa.Value {
 		}
 	}
 	return nil
+}
+
+// checkCloseErrorsKept (C10.R13 / C11.R17): Request.close closes up to four handler objects and reports the first error.
+// A Close error enters the result where the result is still nil — never on the side of a test that says this very
+// error is nil (which records it exactly when there is nothing to record, and drops every real failure: the client's
+// Close of a handle whose handler failed to flush answers OK).
+func checkCloseErrorsKept(c *Ctx, rule string) {
+	p := c.P
+	fn := p.Func("(*Request).close")
+	if fn == nil {
+		c.missing(rule, "(*Request).close")
+		return
+	}
+	n := 0
+	eachInstr(fn, func(in ssa.Instruction) {
+		call, ok := in.(*ssa.Call)
+		if !ok {
+			return
+		}
+		cc := &call.Call
+		isClose := cc.IsInvoke() && cc.Method.Name() == "Close"
+		if !isClose && calleeName(cc) != "closeListerAt" {
+			return
+		}
+		if !isErrorType(call.Type()) {
+			return
+		}
+		n++
+		refs := call.Referrers()
+		reaches, wrongSide := false, false
+		if refs != nil {
+			for _, r := range *refs {
+				switch x := r.(type) {
+				case *ssa.Phi:
+					reaches = true
+					for k, e := range x.Edges {
+						if e != ssa.Value(call) {
+							continue
+						}
+						pred := x.Block().Preds[k]
+						for _, nt := range nilTests(call) {
+							if nt.isNil != nil && nt.isNil != nt.nonNil && (nt.isNil == pred || nt.isNil.Dominates(pred) || (nt.iff.Block() == pred && nt.isNil == x.Block() && nt.nonNil != x.Block())) {
+								wrongSide = true
+							}
+						}
+					}
+				case *ssa.Return, *ssa.Store:
+					reaches = true
+				}
+			}
+		}
+		c.check(reaches && !wrongSide, rule, fmt.Sprintf("error of %s #%d in Request.close reaches the result", calleeName(cc), n), p.Pos(in.Pos()), "recorded when the result is still nil",
+			"the error of a handler object's Close is recorded only on the side where it is nil (or not at all): a failed Close is answered with SSH_FX_OK")
+	})
+	c.check(n >= 3, rule, "Close calls of Request.close", p.Pos(fn.Pos()), fmt.Sprintf("%d calls", n), fmt.Sprintf("only %d Close calls found in Request.close", n))
+}
+
+// checkHandlerObjectInOneSlot (C11.R18): an object a handler returned is put into one slot of the Request's state.  Put
+// into two (the read-write object also as the plain writer, say), Request.close closes it twice and transferError
+// notifies it twice.
+func checkHandlerObjectInOneSlot(c *Ctx, rule string) {
+	p := c.P
+	setters := map[string]bool{"setReaderAt": true, "setWriterAt": true, "setWriterAtReaderAt": true, "setListerAt": true}
+	n := 0
+	for _, fn := range p.LibFuncs() {
+		if outermost(fn).Package() != p.Sftp {
+			continue
+		}
+		byVal := map[ssa.Value]map[string]ssa.Instruction{}
+		eachInstr(fn, func(in ssa.Instruction) {
+			cc := callOf(in)
+			if cc == nil || cc.StaticCallee() == nil || !setters[cc.StaticCallee().Name()] {
+				return
+			}
+			args := argsOf(cc)
+			if len(args) != 1 || isNilConst(args[0]) {
+				return
+			}
+			v := args[0]
+			for i := 0; i < 4; i++ {
+				switch x := v.(type) {
+				case *ssa.ChangeInterface:
+					v = x.X
+					continue
+				case *ssa.MakeInterface:
+					v = x.X
+					continue
+				}
+				break
+			}
+			if byVal[v] == nil {
+				byVal[v] = map[string]ssa.Instruction{}
+			}
+			byVal[v][cc.StaticCallee().Name()] = in
+		})
+		for v, m := range byVal {
+			n++
+			var names []string
+			var at ssa.Instruction
+			for nm, in := range m {
+				names = append(names, nm)
+				at = in
+			}
+			sort.Strings(names)
+			c.check(len(names) == 1, rule, "handler object stored by "+fnName(fn)+" goes into one slot ("+names[0]+")", p.Pos(at.Pos()), "one setter per object",
+				fmt.Sprintf("the same handler object (%s) is put into several slots of the Request (%s): it is closed and notified once per slot", v.Name(), strings.Join(names, ", ")))
+		}
+	}
+	c.check(n >= 3, rule, "handler objects stored into a Request", "?", fmt.Sprintf("%d objects", n), fmt.Sprintf("only %d stores of handler objects found", n))
 }
